@@ -706,13 +706,23 @@ class GroupByReduction(Reduction, GroupByBase):
     def _simplify_up(self, parent, dependents):
         return groupby_projection(self, parent, dependents)
 
+    @property
+    def _dropna(self):
+        # ``dropna=None`` means "pandas default"; passing None on to pandas'
+        # groupby would be interpreted as False and keep the null groups
+        return True if self.dropna is None else self.dropna
+
     @functools.cached_property
     def combine_kwargs(self):
-        return {"levels": self.levels, "observed": self.observed, "dropna": self.dropna}
+        return {
+            "levels": self.levels,
+            "observed": self.observed,
+            "dropna": self._dropna,
+        }
 
     @functools.cached_property
     def chunk_kwargs(self):
-        return {"observed": self.observed, "dropna": self.dropna}
+        return {"observed": self.observed, "dropna": self._dropna}
 
     @functools.cached_property
     def aggregate_kwargs(self):
@@ -720,7 +730,7 @@ class GroupByReduction(Reduction, GroupByBase):
             "levels": self.levels,
             "sort": self.sort,
             "observed": self.observed,
-            "dropna": self.dropna,
+            "dropna": self._dropna,
         }
 
 
